@@ -331,11 +331,11 @@ type runOpts struct {
 	// captchaSometimes: half of the histories start on a network with captcha URL and secret
 	// configured (+x channels, captcha tokens as JOIN keys and in PASS)
 	captchaSometimes bool
-	gen     ircgen.Options
-	minLen  int
-	maxLen  int
-	initial string // initial config TOML ("" = family default)
-	captcha bool   // start from the captcha-enabled member of the family
+	gen              ircgen.Options
+	minLen           int
+	maxLen           int
+	initial          string // initial config TOML ("" = family default)
+	captcha          bool   // start from the captcha-enabled member of the family
 }
 
 // runGenerated draws and executes one history against orc. It returns the case and the failure, if any.
